@@ -643,13 +643,16 @@ class BaseTaskPool:
                 return_exceptions=return_exceptions,
             )
         self._meta_tasks_cancelled.clear()
+        # Only the tasks gathered here may be forgotten afterwards; tasks that
+        # end or get cancelled while we are waiting must stay registered.
+        finished = {**self._tasks_ended, **self._tasks_cancelled}
         await gather(
-            *self._tasks_ended.values(),
-            *self._tasks_cancelled.values(),
+            *finished.values(),
             return_exceptions=return_exceptions,
         )
-        self._tasks_ended.clear()
-        self._tasks_cancelled.clear()
+        for task_id in finished:
+            self._tasks_ended.pop(task_id, None)
+            self._tasks_cancelled.pop(task_id, None)
 
     async def gather_and_close(
         self,
